@@ -773,6 +773,11 @@ def draw_driver(rng):
                     t_['w'] = rng.choice([',', '.', '"', '-', '?', "''"])
                     if t_.get('lm') not in (None, '--'):
                         t_['lm'] = t_['w']
+                elif rng.random() < 0.4:
+                    # whatever a transformation reports about the tokens it
+                    # moves has to get through the standard streams
+                    t_['w'] = rng.choice(['\u00dcbung', 'caf\u00e9',
+                                          '\u00c4rger', 'stra\u00dfe'])
     return case
 
 
